@@ -20,12 +20,18 @@ TRIPLE_HELPERS = {
 EXTRA = {"graphs::Node::add_annotation": [0], "graphs::Node::set_name": [0], "graphs::Node::set_as_output": [0]}
 
 
-def const_int(op):
+def const_int(op, fl=None, b=None):
+    """literal integer operand, or (with a flow) a constant expression such as `PARTIES as u64 - 1`"""
     if op[0] == "k" and op[4] is not None:
         try:
             return int(op[4])
         except ValueError:
             return None
+    if op[0] != "k" and fl is not None:
+        from . import intexpr as IE
+        e = IE.build(fl, b, op)
+        if not IE.variables(e) and not IE.unknown(e):
+            return IE.evaluate(e, {})
     return None
 
 
@@ -99,7 +105,7 @@ class Knowledge:
         elif cn in ("graphs::Graph::input",):
             res = (frozenset(), False)            # whole argument of the protocol: convention depends on the use
         elif short == "tuple_get" and cn.startswith("graphs::"):
-            idx = const_int(t["args"][-1])
+            idx = const_int(t["args"][-1], fl, b)
             src = self.node_args(t)
             if idx is not None and src:
                 # component of an argument of the protocol (input) = replicated share / key triple component
@@ -190,4 +196,40 @@ class Knowledge:
                         l = rv[1][1][0]
                         continue
                     break
+                pushed = self._pushed_components(root, bb)
+                if pushed is not None:
+                    return pushed
         return None
+
+    def _pushed_components(self, root, at_bb):
+        """a vector created empty and filled by straight-line `push` calls only: [(operand, at)] in push order"""
+        from . import cfg as C
+        b, fl = self.b, self.fl
+        ds = fl.defs_of.get(root, [])
+        if len(ds) != 1:
+            return None
+        _, db, dj = fl.defs[ds[0]]
+        if db < 0 or dj is not None or not (callee_name(b.term(db)) or "").endswith("Vec::<T>::new"):
+            return None
+        loops = C.loops(b)
+        pushes = []
+        for bb, t in b.calls():
+            if b.is_cleanup(bb):
+                continue
+            touches = [i for i, a in enumerate(t["args"]) if a[0] != "k" and fl.root_of(a[1][0]) == root]
+            if not touches or bb == db:
+                continue
+            cn = callee_name(t) or ""
+            ty = b.local_ty(t["args"][touches[0]][1][0])
+            if cn.endswith("Vec::<T, A>::push") and touches == [0]:
+                if any(bb in blocks for _, blocks in loops):
+                    return None
+                pushes.append(bb)
+            elif ty.startswith("&mut") :
+                return None          # any other mutation: give up
+        order = sorted(pushes, key=lambda x: sum(1 for y in pushes if C.dominates(b, y, x)))
+        if not all(C.dominates(b, order[i], order[i + 1]) for i in range(len(order) - 1)):
+            return None
+        if order and not C.dominates(b, order[-1], at_bb):
+            return None
+        return [(b.term(x)["args"][1], (x, None)) for x in order] if order else None
